@@ -324,6 +324,37 @@ func main() {
 					edits = append(edits, edit{pos: off(n.For), end: off(n.Body.Lbrace) + 1, text: hdr})
 					edits = append(edits, edit{pos: off(n.End()), end: off(n.End()), text: " }", prio: 1})
 				case *ast.ExprStmt:
+					// method call statement on a package-level variable (of this or another
+					// package of the module): potentially a write to process-wide state
+					if call, ok := n.X.(*ast.CallExpr); ok && len(funcStack) > 0 && funcStack[0] != "init" {
+						if sel, ok := call.Fun.(*ast.SelectorExpr); ok {
+							if _, isMethod := p.TypesInfo.Selections[sel]; isMethod {
+								if id := rootIdent(sel.X); id != nil {
+									obj := p.TypesInfo.ObjectOf(id)
+									var v *types.Var
+									if pn, isPkg := obj.(*types.PkgName); isPkg {
+										// pkg.Var.Method(): the variable is the selector just below
+										if inner, ok := sel.X.(*ast.SelectorExpr); ok {
+											if vv, ok := p.TypesInfo.ObjectOf(inner.Sel).(*types.Var); ok && vv.Parent() == pn.Imported().Scope() && strings.HasPrefix(pn.Imported().Path(), "github.com/benoitkugler/webrender") && !strings.HasSuffix(pn.Imported().Path(), "/logger") {
+												v = vv
+											}
+										}
+									} else if vv, ok := obj.(*types.Var); ok && vv.Parent() == p.Types.Scope() {
+										v = vv
+									}
+									if v != nil && !isMutex(v.Type()) {
+										switch parent.(type) {
+										case *ast.BlockStmt, *ast.CaseClause, *ast.CommClause:
+											siteID++
+											nGW++
+											siteTable = append(siteTable, fmt.Sprintf("%d\tgwrite\t%s\t%s\t%d\t%s.%s()", siteID, rel(fn), curFunc(), tf.Line(n.Pos()), v.Name(), sel.Sel.Name))
+											edits = append(edits, edit{pos: off(n.End()), end: off(n.End()), text: fmt.Sprintf("; simrt.W(%d)", siteID), prio: 2})
+										}
+									}
+								}
+							}
+						}
+					}
 					if call, ok := n.X.(*ast.CallExpr); ok && len(call.Args) == 2 && len(funcStack) > 0 && funcStack[0] != "init" {
 						if fid, ok := call.Fun.(*ast.Ident); ok && fid.Name == "delete" {
 							if _, isBuiltin := p.TypesInfo.ObjectOf(fid).(*types.Builtin); isBuiltin {
